@@ -217,3 +217,124 @@ func ruleFailedRequestEndsInFlight(w *core.World, r *core.Report) {
 		r.Fail("nodePipeline.run/failed-request-ends-requests-in-flight", f.Pos(), "the invocation of a request's send / receive callback was not found in the node pipeline")
 	}
 }
+
+// ---------------------------------------------------------------- R20.19 the key-exists probe asks the entry's own database
+
+// ruleEntryHandledInItsDatabase: a snapshot worker owns one connection and
+// follows the databases of the snapshot with it: selectDB(tracked, entry's
+// database) decides, SELECT goes out when that reports a change (R01.6 says
+// that it does go out before the *next* entry). Whatever the worker does on
+// the connection *for this entry* must come after that: the key-exists probe
+// (EXISTS inside RdbReplay.Replay, inside the bidirectional unit builder)
+// asks the database the connection is in. A worker that builds the unit first
+// and switches afterwards asks the previous entry's database: under
+// ignore/error a key that exists only in its own database is overwritten, one
+// that exists only in the other is dropped or stops the replay (seed C20-14).
+// Decided on every path of one round of the worker's loop (new helpers
+// stepped into) that reaches a call which works on the connection for the
+// entry.
+func ruleEntryHandledInItsDatabase(w *core.World, r *core.Report) {
+	type spec struct {
+		fn        string
+		consumers []string
+	}
+	for _, sp := range []spec{
+		{"(*syncer.RedisOutput).rdbReplay", []string{"(*pkg/rdbrestore.RdbReplay).Replay"}},
+		{"(*syncer.RedisOutput).rdbReplayBisync", []string{"(*syncer.RedisOutput).buildBisyncRdbReplayUnit", "(*syncer.RedisOutput).execBisyncRdbUnit"}},
+	} {
+		f := fn(w, r, sp.fn)
+		if f == nil {
+			continue
+		}
+		short := shortName(sp.fn)
+		for _, cname := range sp.consumers {
+			construct := short + "/" + shortName(cname) + "-in-the-entrys-database"
+			var sites []core.Site
+			for _, g := range reachableFuncs(f) {
+				for _, s := range core.SitesNamed(g, true, cname) {
+					if _, isCall := s.Instr.(*ssa.Call); isCall {
+						dup := false
+						for _, o := range sites {
+							if o.Instr == s.Instr {
+								dup = true
+							}
+						}
+						if !dup {
+							sites = append(sites, s)
+						}
+					}
+				}
+			}
+			if len(sites) == 0 {
+				r.Fail(construct, f.Pos(), "the snapshot worker does not call %s: where the entry is handled on the connection was not found", shortName(cname))
+				continue
+			}
+			for _, cs := range sites {
+				bad := ""
+				var pos token.Pos = cs.Pos()
+				paths := 0
+				undecided := false
+				for _, start := range iterationStarts(w, cs.Instr, 0) {
+					if start.Parent() != f {
+						continue // a second user of the helper: not this worker's loop
+					}
+					okEnum := core.EnumPathsN(start, 0, 200000, 1, func(p *core.Path) {
+						if bad != "" {
+							return
+						}
+						at := -1
+						for i, pi := range p.Instrs {
+							if pi == cs.Instr.(ssa.Instruction) {
+								at = i
+								break
+							}
+						}
+						if at < 0 {
+							return
+						}
+						paths++
+						var decision *ssa.Call
+						switched := false
+						for _, pi := range p.Instrs[:at] {
+							c, isCall := pi.(*ssa.Call)
+							if !isCall {
+								continue
+							}
+							switch core.ResolveCall(c).Name {
+							case "(*syncer.RedisOutput).selectDB":
+								decision, switched = c, false
+							case "pkg/redis.SelectDB":
+								if decision != nil {
+									switched = true
+								}
+							}
+						}
+						if decision == nil {
+							bad = "on a path of the worker's round the call is reached before selectDB has compared the entry's database with the one the connection is in"
+							return
+						}
+						changed := func(v ssa.Value) bool {
+							e, ok := core.Unwrap(v).(*ssa.Extract)
+							return ok && e.Index == 1 && e.Tuple == ssa.Value(decision)
+						}
+						if pathAssumed(p, changed, true) && !switched {
+							bad = "on a path of the worker's round selectDB reports a change of database and the call is reached before the SELECT has gone out"
+						}
+					})
+					if !okEnum {
+						undecided = true
+					}
+				}
+				if undecided {
+					r.Undecided(construct, cs.Pos(), "too many paths")
+					continue
+				}
+				if bad == "" && paths == 0 {
+					r.Undecided(construct, cs.Pos(), "no path of the worker's loop reaches the call")
+					continue
+				}
+				r.Check(bad == "", construct, pos, "%s: what it does on the connection for this entry — first of all the key-exists probe — happens in the database of the entry handled before, so the ignore / error / replace policy is applied to the wrong key (an existing key of the entry's database is overwritten under ignore or error, a key that exists only in the other database is dropped or stops the replay)", bad)
+			}
+		}
+	}
+}
